@@ -6,6 +6,7 @@ package dastard
 // Compiled only with `-tags verif`; adds no behaviour to the normal build.
 
 import (
+	"sync"
 	"time"
 
 	"github.com/spf13/viper"
@@ -250,3 +251,19 @@ func VerifLanceroCoupling(b *TriggerBroker, nchan int, status CouplingStatus) er
 	ls.broker = b
 	return ls.SetCoupling(status)
 }
+
+// VerifStartClientDrain starts (once) a goroutine that keeps the client message channel empty;
+// without a reader block processing and request closures stall after 10 messages.
+func VerifStartClientDrain() {
+	verifDrainOnce.Do(func() {
+		go func() {
+			for range clientMessageChan {
+			}
+		}()
+	})
+}
+
+var verifDrainOnce sync.Once
+
+// VerifZeroThreshold is the real kink-model refinement of an edge-multi trigger index.
+func VerifZeroThreshold(raw []RawType, i int32) int32 { return zeroThreshold(raw, i, true) }
